@@ -11,6 +11,7 @@ VERUS = {
                     (r"clause: .*sync_seqn", ["C04", "C14"]),
                 ]},
     "v2_store_commit": {"template": "units/verus/v2_store_commit.rs.tmpl", "rlimit": 30},
+    "v7_hasher": {"template": "units/verus/v7_hasher.rs.tmpl", "rlimit": 30},
     "v8_write_ht": {"template": "units/verus/v8_write_ht.rs.tmpl", "rlimit": 30,
                     "playback_scenarios": {"write_ht": ("nomt", "replay_write_ht_reports_failed_page_write")}},
     "v3_commit_entry": {"template": "units/verus/v3_commit_entry.rs.tmpl", "rlimit": 30,
@@ -22,6 +23,19 @@ VERUS = {
 }
 
 KANI = {
+    "k_hasher": {
+        "crate": "nomt-core", "module": "hasher::verif_kani", "module_file": "/verif/units/kani/core_hasher.rs",
+        "harnesses": [
+            {"name": "node_kind_matches_spec", "complete": True, "about": "node_kind_by_msb, BinaryHasher::node_kind (core/src/hasher.rs)",
+             "contract": "forall node: node_kind == (MSB set -> Leaf | all zero -> Terminator | else Internal)"},
+            {"name": "leaf_and_internal_hashes_are_domain_separated", "complete": True, "about": "BinaryHasher::{hash_leaf,hash_internal}",
+             "contract": "forall inputs and every underlying hash: kind(hash_leaf) == Leaf, kind(hash_internal) != Leaf, the two never collide, a leaf hash is never the terminator"},
+        ],
+        "functions": [("core/src/hasher.rs", "node_kind_by_msb"), ("core/src/hasher.rs", "set_msb"), ("core/src/hasher.rs", "unset_msb"), ("core/src/hasher.rs", "BinaryHasher::hash_leaf"), ("core/src/hasher.rs", "BinaryHasher::hash_internal")],
+        "trusted": ["the underlying binary hash is modelled as an arbitrary function (fresh symbolic value per call)"],
+        "flags": ["--no-memory-safety-checks"],
+        "harness_timeout": 300,
+    },
     "k1_wal": {
         "crate": "nomt", "module": "bitbox::writeout::verif_kani", "module_file": "/verif/units/kani/bitbox_writeout.rs",
         "harnesses": [
@@ -70,6 +84,11 @@ PROPERTIES = {
             "level_text": "format level: each codec pair of the on-disk formats is proved inverse and frame-tight on the real functions; loop-free or format-constant-bounded harnesses are complete proofs, the others are labelled bounded. The whole-image invariant after a history is not decided.",
             "level_note": "Kani/CBMC; PagePool buffers modelled as fresh 4096-byte arrays; bounded harnesses are listed in coverage.bounded_obligations and are not counted as proved",
             "explanation": "", "assumptions": ["global well-formedness across pages after a history is not decided"]},
+    "C08": {"verus": ["v7_hasher"], "kani": ["k_hasher"], "level": "proof",
+            "technique": "contract-based deductive verification (Verus on the node-kind tagging of core/src/hasher.rs; Kani on the verifiers' scope checks)",
+            "level_text": "component level: the real hasher code is proved to separate leaf hashes from internal hashes and the terminator for every input and every underlying hash function (the domain-separation fact every soundness argument starts from); the scope checks of the verifiers are checked by Kani harnesses over symbolic proofs (bounded in length). The inductive soundness theorem for arbitrary depth and collision resistance itself are not decided.",
+            "level_note": "the binary hash is an uninterpreted function; TERMINATOR == [0;32] is an axiom whose source text is checked by the extractor; collision resistance of blake3/sha2 is assumed and not used",
+            "explanation": "", "assumptions": ["collision resistance of the hash (not used by the proved obligations)", "soundness for arbitrary depth is not decided"]},
     "C12": {"verus": ["v3_commit_entry"], "kani": [], "level": "proof",
             "technique": "contract-based deductive verification (Verus on the four commit entry points extracted verbatim; effects require an `authorised()` token only the base check yields)",
             "level_text": "FinishedSession::{commit,try_commit_nonblocking} and Overlay::{commit,try_commit_nonblocking} are proved for all inputs: every effectful callee (rollback log append, store commit, overlay status flip) and both shared-state assignments require that the previous-root check has passed on this execution. Failures are replayed by scenarios against the real crate.",
